@@ -38,9 +38,10 @@ pub fn history(regs0: &[u8], prog: &[u8]) -> Out {
     for ins in prog.chunks(4) {
         let (opc, d, s1, s2) = (ins[0] % 12, ins[1] as usize % NREG, ins[2] as usize % NREG, ins[3] as usize % NREG);
         let imm = ins[3];
+        let form = ins[1] as usize / NREG; // which operator form this step uses (the model ignores it)
         let res: RistrettoPoint = match opc {
-            0 => &r[s1] + &r[s2],
-            1 => &r[s1] - &r[s2],
+            0 => crate::add_form!(r[s1], r[s2], form),
+            1 => crate::sub_form!(r[s1], r[s2], form),
             2 => {
                 if imm & 1 == 0 {
                     -&r[s1]
@@ -48,28 +49,20 @@ pub fn history(regs0: &[u8], prog: &[u8]) -> Out {
                     -r[s1]
                 }
             }
-            3 => r[s1] + r[s1],
-            4 => {
-                let mut t = r[d];
-                t += &r[s1];
-                t
-            }
-            5 => {
-                let mut t = r[d];
-                t -= r[s1];
-                t
-            }
+            3 => crate::add_form!(r[s1], r[s1], form),
+            4 => crate::add_form!(r[d], r[s1], 4 + form % 2),
+            5 => crate::sub_form!(r[d], r[s1], 4 + form % 2),
             6 => {
                 let sel: Vec<RistrettoPoint> = (0..NREG).filter(|i| imm >> i & 1 == 1).map(|i| r[i]).collect();
-                sel.iter().sum()
+                if form % 2 == 0 {
+                    sel.iter().sum()
+                } else {
+                    sel.into_iter().sum()
+                }
             }
             7 => {
                 let k = Scalar::from(imm);
-                if imm & 1 == 0 {
-                    &r[s1] * &k
-                } else {
-                    k * r[s1]
-                }
+                crate::mul_form!(r[s1], k, form)
             }
             8 => match r[s1].compress().decompress() {
                 Some(p) => p,
@@ -83,7 +76,7 @@ pub fn history(regs0: &[u8], prog: &[u8]) -> Out {
                     RistrettoPoint::default()
                 }
             }
-            _ => r[s1] - r[s2],
+            _ => crate::sub_form!(r[s1], r[s2], form + 3),
         };
         r[d] = res;
         o.extend_from_slice(&enc(&r[d]));
@@ -169,11 +162,9 @@ pub fn exec(op: &str, a: &[Vec<u8>]) -> Out {
         "rs.mul" => {
             let s = need!(sc_any(&a[0]));
             let p = need!(rp(&a[1]));
-            let mut t = p;
-            t *= &s;
             let mut o = vec![];
-            for r in [&p * &s, &s * &p, p * s, s * p, t] {
-                o.extend_from_slice(&enc(&r));
+            for form in 0..10usize {
+                o.extend_from_slice(&enc(&crate::mul_form!(p, s, form)));
             }
             Out::Ok(o)
         }
